@@ -6,7 +6,7 @@ USES = ["shared"]
 
 MODES = "csvpath/modes"
 CF["ModeController"].update({"g_meta": "dict[str,val]"})
-for _cls in ("ReturnMode", "RunMode", "LogicMode", "UnmatchedMode", "SourceMode", "ExplainMode"):
+for _cls in ("ReturnMode", "RunMode", "LogicMode", "UnmatchedMode", "SourceMode", "ExplainMode", "PrintMode"):
     CF.setdefault(_cls, {}).setdefault("controller", "obj:ModeController")
 
 P_GET = "def patch(self, mode):\n    return self.g_meta.get(mode)\n"
@@ -54,6 +54,42 @@ def mode_contracts():
         ensures={"documented_values": f"result == ({M}('source-mode') is not None and {M}('source-mode') == 'preceding')"},
         returns="bool", property_clauses={"documented_values": "C15,C20"},
         doc={"documented_values": "docs: source-mode 'preceding' makes the csvpath read its predecessor's data"}, **base))
+    PR = "self.controller.csvpath.printers"
+    pm = f"strip(str_of({M}('print-mode')))"
+    so = lambda x: f"isinstance({x}, StdOutPrinter)"
+    n0 = f"len(old({PR}))"
+    cs.append(Contract(
+        target=f"{MODES}/print_mode.py::PrintMode.update_printers",
+        requires=[f"tag({M}('print-mode'), 'none') or tag({M}('print-mode'), 'str')"],
+        modifies=[PR],
+        raises={"InputException": {"when": f"{pm} != 'no-default' and {pm} != 'default'", "exact": True}},
+        ensures={
+            "no_default_removes_the_first_standard_out_printer_and_nothing_else":
+                f"implies({pm} == 'no-default', "
+                f"(forall_int(0, {n0}, lambda j: not {so(f'old({PR})[j]')}) and {PR} == old({PR})) or "
+                f"exists_int(0, {n0}, lambda k: {so(f'old({PR})[k]')} and forall_int(0, k, lambda j: not {so(f'old({PR})[j]')}) and "
+                f"{PR} == old({PR})[0:k] + old({PR})[k + 1:]))",
+            "default_keeps_the_list_when_it_has_a_standard_out_printer":
+                f"implies({pm} == 'default' and exists_int(0, {n0}, lambda k: {so(f'old({PR})[k]')}), {PR} == old({PR}))",
+            "default_appends_one_standard_out_printer_when_there_is_none":
+                f"implies({pm} == 'default' and forall_int(0, {n0}, lambda j: not {so(f'old({PR})[j]')}), "
+                f"len({PR}) == {n0} + 1 and {PR}[0:{n0}] == old({PR}) and {so(f'{PR}[{n0}]')})"},
+        invariants={0: [f"remove == -1", f"forall_int(0, _i0, lambda j: not {so(f'{PR}[j]')})", f"{PR} == old({PR})"],
+                    1: [f"done == False", f"forall_int(0, _i1, lambda j: not {so(f'{PR}[j]')})", f"{PR} == old({PR})"]},
+        covers={"removes_one": f"len({PR}) == {n0} - 1", "adds_one": f"len({PR}) == {n0} + 1",
+                "no_default_without_a_standard_out_printer": f"{pm} == 'no-default' and {n0} > 0 and {PR} == old({PR})"},
+        types={PR: "list[val]"},
+        returns="none", property_clauses={"no_default_removes_the_first_standard_out_printer_and_nothing_else": "C15",
+                                          "default_keeps_the_list_when_it_has_a_standard_out_printer": "C15",
+                                          "default_appends_one_standard_out_printer_when_there_is_none": "C15"},
+        doc={"no_default_removes_the_first_standard_out_printer_and_nothing_else": "C15: 'print-mode no-default removes standard-out printing only'"},
+        inline=["StdOutPrinter.__init__"],
+        class_fields=CF, macros=MACROS,
+        native={"patches": NATIVE["patches"], "spec_names": {"StdOutPrinter": "csvpath.util.printer.StdOutPrinter", "TestPrinter": "csvpath.util.printer.TestPrinter"},
+                "examples": [{"self.controller.g_meta": {"print-mode": mode}, PR: [{"new": k} for k in kinds]}
+                             for mode in ("no-default", "default", " no-default ")
+                             for kinds in ([], ["StdOutPrinter"], ["TestPrinter"], ["TestPrinter", "StdOutPrinter"], ["StdOutPrinter", "TestPrinter", "StdOutPrinter"],
+                                           ["TestPrinter", "TestPrinter"], ["TestPrinter", "StdOutPrinter", "TestPrinter"])]}))
     return cs
 
 
@@ -63,8 +99,10 @@ def contracts():
 
 LEVEL = "other"
 EXPLANATION = ("The inversion and partition clauses are postconditions of the real _consider_line and next (proved, unbounded); mode getters are "
-               "proved against the documented strings; the comment scanner (character state machine) and print-mode's printer list are "
-               "checked natively over a stated finite scope (bounded, not counted as proved).")
+               "proved against the documented strings; PrintMode.update_printers is proved to remove exactly the first standard-out printer under "
+               "no-default and to leave every other printer in place (two loops with invariants, isinstance as an uninterpreted predicate of the "
+               "printer's identity); the comment scanner (character state machine) is checked natively over a stated finite scope (bounded, not "
+               "counted as proved).")
 
 
 def bounded(tier, seed):
